@@ -152,13 +152,16 @@ def monitorAdd (tl : Tally) (before : PolSnap) (key : Nat) (cost incHits : Int)
   let charged := fun (cs : List (Nat × Int)) (k : Nat) => (cs.find? (·.1 == k)).map (·.2)
   let isNew := (charged before.charges key).isNone
   let vs := victims.getD []
+  -- the room that really is there: max_cost minus the sum of the per-entry charges (the policy's own
+  -- running total equals it on every reachable state, C01; the rule is judged on the charges)
+  let total := sumCosts before.charges
   -- room available ⇒ admitted, nothing evicted
-  if isNew && cost ≤ before.max && before.max - (before.used + cost) ≥ 0 then
+  if isNew && cost ≤ before.max && before.max - (total + cost) ≥ 0 then
     if !(added && victims.isNone) then
-      tl := tl.monitorAt "C07" s!"room was available for key {key} cost {cost} but added={added} victims={showPairs vs}"
+      tl := tl.monitorAt "C07" s!"room was available for key {key} cost {cost} (charges add up to {total}, max_cost {before.max}) but added={added} victims={showPairs vs}"
   if !obs.isEmpty then
     let mut cs := before.charges
-    let mut used := before.used
+    let mut used := total
     let mut i := 0
     for o in obs do
       let room := before.max - (used + cost)
